@@ -203,11 +203,29 @@ def check(run):
     # NoKeyword weight 0 in value_type_dist; int_type_dist lists exactly suffix types
     sd, sa = lexq.suffix_table(F, "delta"), lexq.suffix_table(F, "alpha")
     int_list = None
-    for n in walk(fz["hir"]):
-        if n.get("k") == "Array" and len(n.get("a", [])) >= 8:
-            names = [hirq.short(p).split("::")[-1] for x in n["a"] for p, _ in hirq.constructs(x)]
-            if "Int8" in names:
-                int_list = names
+    # by role: the distribution that is sampled in the SuffixedInteger arm; it is either built from an explicit list of types or from
+    # all type keywords minus those a match gives weight 0
+    sampled = set()
+    for c_ in hirq.calls(explicit["SuffixedInteger"]["body"]) if "SuffixedInteger" in explicit else []:
+        if c_.get("k") == "MethodCall" and c_.get("name") == "sample":
+            r_ = hirq.unwrap_trivial(c_["recv"])
+            if r_.get("k") == "Path" and r_.get("rk") == "Local":
+                sampled.add(r_.get("lid"))
+    scopes = [n["init"] for n in walk(fz["hir"]) if n.get("k") == "Let" and isinstance(n.get("init"), dict) and hirq.strip_ref(n["pat"]).get("lid") in sampled]
+    for scope in (scopes or [fz["hir"]]):
+        for n in walk(scope):
+            if n.get("k") == "Array" and len(n.get("a", [])) >= 8:
+                names = [hirq.short(p).split("::")[-1] for x in n["a"] for p, _ in hirq.constructs(x)]
+                if "Int8" in names:
+                    int_list = names
+        if int_list is None and scopes:
+            for m_ in hirq.matches_on_type(F.lib, scope, "lexer::ValueTypeKeyword", 2):
+                zero = set()
+                for a_ in m_["arms"]:
+                    if [x["v"] for x in hirq.lits(a_["body"], "int")] == [0]:
+                        zero |= {hirq.pat_key(alt).split("::")[-1] for alt in hirq.pat_alts(a_["pat"]) if not hirq.is_catchall(alt)}
+                if zero:
+                    int_list = [v for v in F.variants("delta::lexer::ValueTypeKeyword") if v not in zero]
     run.require(int_list is not None, "int type list not found in the fuzzer")
     for v in int_list:
         sp = vdisp.get(v)
